@@ -316,6 +316,176 @@ fn run_tween(sc: &Value, t: &mut Tracer) {
 	t.ev(json!({"a": "end"}));
 }
 
+/// mode "cancel": n clocks created one after the other (adjacent slots), each ticking once per buffer; sound i waits for
+/// tick w[i] of clock i; the history drops clock handles between callbacks (ClockCancel.tla / P_C05C.tla)
+fn run_cancel(sc: &Value, t: &mut Tracer) {
+	let n = sc["n"].as_u64().unwrap() as usize;
+	let w: Vec<u64> = sc["w"].as_array().unwrap().iter().map(|x| x.as_u64().unwrap()).collect();
+	t.reset(json!({"mode": "cancel", "n": n, "w": w, "src": sc["src"]}));
+	let mut sim = Sim::basic();
+	let mut clocks: Vec<Option<ClockHandle>> = vec![];
+	let mut sounds = vec![];
+	for i in 0..n {
+		// one tick per buffer: NF frames at RATE Hz
+		let mut c = sim.manager.add_clock(ClockSpeed::TicksPerSecond(RATE as f64 / NF as f64)).unwrap();
+		c.start();
+		// sound i is a constant of amplitude 2^-(i+1): the sum of any subset is decodable
+		let amp = 0.5f32.powi(i as i32 + 1);
+		let frames: Vec<kira::Frame> = (0..400).map(|_| kira::Frame::from_mono(amp)).collect();
+		let data = StaticSoundData {
+			sample_rate: RATE,
+			frames: frames.into(),
+			settings: StaticSoundSettings::new().start_time(StartTime::ClockTime(ClockTime { clock: c.id(), ticks: w[i], fraction: 0.0 })),
+			slice: None,
+		};
+		sounds.push(sim.manager.play(data).unwrap());
+		clocks.push(Some(c));
+	}
+	for step in sc["steps"].as_array().unwrap() {
+		match step["act"].as_str().unwrap() {
+			"Drop" => {
+				let c = step["c"].as_u64().unwrap() as usize;
+				clocks[c - 1] = None;
+				t.ev(json!({"a": "drop", "c": c}));
+			}
+			"Callback" => {
+				let res = sim.callback(NF);
+				if let Some(m) = res.panicked {
+					t.ev(json!({"a": "panic", "who": "audio", "msg": m}));
+					break;
+				}
+				let mut heard = vec![false; n];
+				for f in 0..NF {
+					let bits = (res.out[2 * f] as f64 * (1u64 << n) as f64).round() as u64;
+					for i in 0..n {
+						if bits & (1 << (n - 1 - i)) != 0 {
+							heard[i] = true;
+						}
+					}
+				}
+				let st: Vec<&str> = sounds.iter().map(|h| state_name(h.state())).collect();
+				t.ev(json!({"a": "cb", "heard": heard, "st": st}));
+			}
+			x => panic!("unknown act {x}"),
+		}
+	}
+	t.ev(json!({"a": "end"}));
+}
+
+/// mode "sched": one thing of kind `what` scheduled for tick w of a clock that ticks once per buffer; every callback
+/// reports whether the thing has begun (P_C05S.tla: in the buffer during which the clock reaches the tick - at most one
+/// buffer early, never late)
+fn run_sched(sc: &Value, t: &mut Tracer) {
+	use kira::{
+		modulator::tweener::TweenerBuilder,
+		track::{SpatialTrackBuilder, TrackBuilder},
+		Decibels, Easing, Frame, Mapping, Value as KValue,
+	};
+	let what = sc["what"].as_str().unwrap();
+	let w = sc["w"].as_u64().unwrap();
+	let dur = sc["d"].as_u64().unwrap_or(0);
+	t.reset(json!({"mode": "sched", "what": what, "w": w, "d": dur, "src": sc["src"]}));
+	let mut sim = Sim::basic();
+	let tone = |amp: f32| StaticSoundData {
+		sample_rate: RATE,
+		frames: (0..400).map(|_| Frame::from_mono(amp)).collect::<Vec<_>>().into(),
+		settings: StaticSoundSettings::new(),
+		slice: None,
+	};
+	let per_buffer = ClockSpeed::TicksPerSecond(RATE as f64 / NF as f64);
+	// everything that has to exist before the clock starts counting
+	let mut sub = sim.manager.add_sub_track(TrackBuilder::new()).unwrap();
+	let mut listener = sim.manager.add_listener(glam::Vec3::ZERO, glam::Quat::IDENTITY).unwrap();
+	let mut spatial = sim
+		.manager
+		.add_spatial_sub_track(
+			listener.id(),
+			glam::Vec3::new(1.0, 0.0, 0.0),
+			SpatialTrackBuilder::new().distances((1.0, 9.0)).spatialization_strength(0.0),
+		)
+		.unwrap();
+	let mut tweener = sim.manager.add_modulator(TweenerBuilder { initial_value: 0.0 }).unwrap();
+	let mut other = if what == "clock_speed_older" { Some(sim.manager.add_clock(per_buffer).unwrap()) } else { None };
+	let mut clock = sim.manager.add_clock(per_buffer).unwrap();
+	if what == "clock_speed_younger" {
+		other = Some(sim.manager.add_clock(per_buffer).unwrap());
+	}
+	if let Some(o) = other.as_mut() {
+		o.start();
+	}
+	let mut snd = match what {
+		"sound" => None,
+		"track_vol" => Some(sub.play(tone(0.5)).unwrap()),
+		"listener" | "emitter" => Some(spatial.play(tone(0.5)).unwrap()),
+		"tweener" => Some(
+			sim.manager
+				.play(tone(0.5).volume(KValue::FromModulator {
+					id: tweener.id(),
+					mapping: Mapping { input_range: (0.0, 1.0), output_range: (Decibels(0.0), Decibels(-12.0)), easing: Easing::Linear },
+				}))
+				.unwrap(),
+		),
+		_ => Some(sim.manager.play(tone(0.5)).unwrap()),
+	};
+	let zero = Tween { start_time: StartTime::Immediate, duration: Duration::ZERO, easing: Easing::Linear };
+	if what == "resume" {
+		snd.as_mut().unwrap().pause(zero);
+	}
+	let _ = sim.callback(NF);
+	let base = sim.callback(NF).out[0];
+	let at = StartTime::ClockTime(ClockTime { clock: clock.id(), ticks: w, fraction: 0.0 });
+	let tw = Tween { start_time: at, duration: chunks(dur), easing: Easing::Linear };
+	let mut other_before = other.as_ref().map(|o| units(o.time())).unwrap_or(0);
+	match what {
+		"sound" => {
+			let h = sim.manager.play(tone(0.5).start_time(at)).unwrap();
+			std::mem::forget(h);
+		}
+		"resume" => snd.as_mut().unwrap().resume_at(at, zero),
+		"sound_vol" => snd.as_mut().unwrap().set_volume(Decibels(-12.0), tw),
+		"track_vol" => sub.set_volume(Decibels(-12.0), tw),
+		"main_vol" => sim.manager.main_track().set_volume(Decibels(-12.0), tw),
+		"listener" => listener.set_position(glam::Vec3::new(-4.0, 0.0, 0.0), tw),
+		"emitter" => spatial.set_position(glam::Vec3::new(5.0, 0.0, 0.0), tw),
+		"tweener" => tweener.set(1.0, tw),
+		"clock_speed_older" | "clock_speed_younger" => {
+			other.as_mut().unwrap().set_speed(ClockSpeed::TicksPerSecond(2.0 * RATE as f64 / NF as f64), tw)
+		}
+		x => panic!("unknown kind {x}"),
+	}
+	clock.start();
+	// the published time of a clock is the time at the start of the callback: what is read after callback j tells what
+	// the other clock did in buffer j - 1
+	let lag = what.starts_with("clock_speed");
+	let mut obs = vec![];
+	for _ in 0..(w + dur + 4 + lag as u64) {
+		let res = sim.callback(NF);
+		if let Some(m) = res.panicked {
+			t.ev(json!({"a": "panic", "who": "audio", "msg": m}));
+			break;
+		}
+		let begun = match what {
+			"sound" => res.out.iter().any(|x| *x != 0.0),
+			"resume" => {
+				let st = snd.as_ref().unwrap().state();
+				st == kira::sound::PlaybackState::Resuming || st == kira::sound::PlaybackState::Playing
+			}
+			"clock_speed_older" | "clock_speed_younger" => {
+				let now = units(other.as_ref().unwrap().time());
+				let step = now - other_before;
+				other_before = now;
+				step > 4
+			}
+			_ => res.out.chunks(2).any(|c| c[0] != base),
+		};
+		obs.push(begun);
+	}
+	for b in obs.iter().skip(lag as usize) {
+		t.ev(json!({"a": "cb", "begun": b}));
+	}
+	t.ev(json!({"a": "end"}));
+}
+
 fn main() {
 	let args: Vec<String> = std::env::args().collect();
 	quiet_panics();
@@ -326,6 +496,10 @@ fn main() {
 	for sc in read_scenarios(&inp) {
 		if sc["mode"] == "tween" {
 			run_tween(&sc, &mut t);
+		} else if sc["mode"] == "sched" {
+			run_sched(&sc, &mut t);
+		} else if sc["mode"] == "cancel" {
+			run_cancel(&sc, &mut t);
 		} else {
 			run_scenario(&sc, &mut t);
 		}
